@@ -2,7 +2,9 @@
 //! simulated stream delivery.
 
 use super::iogen::{self, benign_plan, with_hard_error};
-use crate::exec::{exec, hexbytes, hexbytes_opt, Cmd, Ctx, HarnessError, IoStep, NamedFile, Outcome};
+use crate::exec::{
+    exec, hexbytes, hexbytes_opt, Cmd, Ctx, HarnessError, IoStep, NamedFile, Outcome,
+};
 use crate::framework::RunReport;
 use crate::prng::{Fnv, Rng};
 use serde::{Deserialize, Serialize};
@@ -12,9 +14,14 @@ use std::path::Path;
 #[derive(Clone, Debug, Serialize, Deserialize, PartialEq, Eq)]
 pub enum LayoutOp {
     /// insert an ASCII whitespace byte at position `at` (mod len+1)
-    InsertWs { at: u32, ws: u8 },
+    InsertWs {
+        at: u32,
+        ws: u8,
+    },
     /// flip the case of the letter at position `at` (mod len), if it is one
-    FlipCase { at: u32 },
+    FlipCase {
+        at: u32,
+    },
     /// upper-case every hex letter (but not the prefix's x)
     UpperAll,
     DropPrefix,
@@ -64,7 +71,11 @@ pub fn apply_layout(text: &[u8], ops: &[LayoutOp]) -> Vec<u8> {
                     let c = t[i];
                     // never touch the x of the prefix: "0X" is not the documented prefix
                     if c.is_ascii_hexdigit() && c.is_ascii_alphabetic() {
-                        t[i] = if c.is_ascii_lowercase() { c.to_ascii_uppercase() } else { c.to_ascii_lowercase() };
+                        t[i] = if c.is_ascii_lowercase() {
+                            c.to_ascii_uppercase()
+                        } else {
+                            c.to_ascii_lowercase()
+                        };
                     }
                 }
             }
@@ -107,15 +118,23 @@ pub fn gen_layout(rng: &mut Rng, text_len: usize) -> Vec<LayoutOp> {
         0 => {}
         1 => {
             for _ in 0..rng.range(1, 6) {
-                ops.push(LayoutOp::InsertWs { at: rng.below(text_len as u64 + 8) as u32, ws: *rng.pick(&WS) });
+                ops.push(LayoutOp::InsertWs {
+                    at: rng.below(text_len as u64 + 8) as u32,
+                    ws: *rng.pick(&WS),
+                });
             }
         }
         2 => {
             for _ in 0..rng.range(1, 12) {
-                ops.push(LayoutOp::FlipCase { at: rng.below(text_len as u64 + 1) as u32 });
+                ops.push(LayoutOp::FlipCase {
+                    at: rng.below(text_len as u64 + 1) as u32,
+                });
             }
             if rng.coin() {
-                ops.push(LayoutOp::InsertWs { at: 1, ws: *rng.pick(&WS) }); // inside the prefix
+                ops.push(LayoutOp::InsertWs {
+                    at: 1,
+                    ws: *rng.pick(&WS),
+                }); // inside the prefix
             }
         }
         _ => {
@@ -124,9 +143,14 @@ pub fn gen_layout(rng: &mut Rng, text_len: usize) -> Vec<LayoutOp> {
             }
             for _ in 0..rng.range(0, 20) {
                 if rng.coin() {
-                    ops.push(LayoutOp::InsertWs { at: rng.below(text_len as u64 + 8) as u32, ws: *rng.pick(&WS) });
+                    ops.push(LayoutOp::InsertWs {
+                        at: rng.below(text_len as u64 + 8) as u32,
+                        ws: *rng.pick(&WS),
+                    });
                 } else {
-                    ops.push(LayoutOp::FlipCase { at: rng.below(text_len as u64 + 1) as u32 });
+                    ops.push(LayoutOp::FlipCase {
+                        at: rng.below(text_len as u64 + 1) as u32,
+                    });
                 }
             }
         }
@@ -155,7 +179,21 @@ pub fn gen_malformed(rng: &mut Rng, data: &[u8]) -> Vec<u8> {
         }
         1 => {
             // one non-hex character at a seeded digit position
-            let bad: &[&[u8]] = &[b"g", b"z", b"G", b"-", b"_", b".", b"x", b"\0", "é".as_bytes(), "１".as_bytes(), b"o", b"O", b"l"];
+            let bad: &[&[u8]] = &[
+                b"g",
+                b"z",
+                b"G",
+                b"-",
+                b"_",
+                b".",
+                b"x",
+                b"\0",
+                "é".as_bytes(),
+                "１".as_bytes(),
+                b"o",
+                b"O",
+                b"l",
+            ];
             let b = rng.pick(bad);
             let at = 2 + rng.usize_below(t.len() - 2 + 1);
             if rng.coin() && at < t.len() {
@@ -171,7 +209,13 @@ pub fn gen_malformed(rng: &mut Rng, data: &[u8]) -> Vec<u8> {
         2 => {
             // not UTF-8
             let at = rng.usize_below(t.len() + 1);
-            let bad: &[&[u8]] = &[&[0xff], &[0x80], &[0xc3], &[0xed, 0xa0, 0x80], &[0xf8, 0x88, 0x80, 0x80, 0x80]];
+            let bad: &[&[u8]] = &[
+                &[0xff],
+                &[0x80],
+                &[0xc3],
+                &[0xed, 0xa0, 0x80],
+                &[0xf8, 0x88, 0x80, 0x80, 0x80],
+            ];
             t.splice(at..at, rng.pick(bad).iter().copied());
         }
         3 => {
@@ -206,8 +250,16 @@ pub fn spec_decode(text: &[u8]) -> Option<Vec<u8>> {
 
 impl HexCase {
     fn stage(&self, op: &str, input: &[u8], use_stdin: bool, r: &[IoStep], w: &[IoStep]) -> Cmd {
-        let mut cmd = Cmd { argv: vec!["hex".into(), op.into()], wplan: w.to_vec(), ..Cmd::default() };
-        let pipe = if op == "encode" { self.enc_pipe } else { self.dec_pipe };
+        let mut cmd = Cmd {
+            argv: vec!["hex".into(), op.into()],
+            wplan: w.to_vec(),
+            ..Cmd::default()
+        };
+        let pipe = if op == "encode" {
+            self.enc_pipe
+        } else {
+            self.dec_pipe
+        };
         if use_stdin {
             if self.explicit_dash {
                 cmd.argv.push("-".into());
@@ -221,7 +273,10 @@ impl HexCase {
             cmd.stdin_pipe = true;
         } else {
             cmd.argv.push("in.bin".into());
-            cmd.files.push(NamedFile { name: "in.bin".into(), data: input.to_vec() });
+            cmd.files.push(NamedFile {
+                name: "in.bin".into(),
+                data: input.to_vec(),
+            });
             cmd.fplan = r.to_vec();
         }
         cmd
@@ -246,7 +301,9 @@ impl HexCase {
         }
         // EINTR on the read that would have observed EOF
         let evs: Vec<_> = o.io.iter().filter(|e| e.tag == rt).collect();
-        let eof_after_eintr = evs.windows(2).any(|p| p[0].ret < 0 && p[0].errno == 4 && p[1].ret == 0);
+        let eof_after_eintr = evs
+            .windows(2)
+            .any(|p| p[0].ret < 0 && p[0].errno == 4 && p[1].ret == 0);
         rep.probe("eintr_on_last_read_before_eof", eof_after_eintr);
         rep.probe("write_split_mid_output", fw.short > 0);
     }
@@ -259,7 +316,12 @@ impl HexCase {
         let mut eh = Fnv::new();
         let mut hist = Vec::new();
         rep.fault_free = !iogen::has_hard(&self.enc_r) && !iogen::has_hard(&self.dec_r);
-        for p in ["eintr_on_last_read_before_eof", "write_split_mid_output", "hard_error_before_eof_fired", "hard_error_not_reached"] {
+        for p in [
+            "eintr_on_last_read_before_eof",
+            "write_split_mid_output",
+            "hard_error_before_eof_fired",
+            "hard_error_not_reached",
+        ] {
             rep.probe(p, false);
         }
 
@@ -268,7 +330,13 @@ impl HexCase {
             dec_input = bad.clone();
         } else {
             // ---- stage 1: encode -------------------------------------------------
-            let cmd = self.stage("encode", &self.data, self.enc_stdin, &self.enc_r, &self.enc_w);
+            let cmd = self.stage(
+                "encode",
+                &self.data,
+                self.enc_stdin,
+                &self.enc_r,
+                &self.enc_w,
+            );
             let o = exec(ctx, dir, &cmd)?;
             eh.write_u64(o.event_hash());
             Self::account(&mut rep, &o, self.enc_stdin, &self.enc_r, &self.enc_w);
@@ -313,7 +381,13 @@ impl HexCase {
         }
 
         // ---- stage 2: decode ------------------------------------------------------
-        let cmd = self.stage("decode", &dec_input, self.dec_stdin, &self.dec_r, &self.dec_w);
+        let cmd = self.stage(
+            "decode",
+            &dec_input,
+            self.dec_stdin,
+            &self.dec_r,
+            &self.dec_w,
+        );
         let o = exec(ctx, dir, &cmd)?;
         eh.write_u64(o.event_hash());
         Self::account(&mut rep, &o, self.dec_stdin, &self.dec_r, &self.dec_w);
@@ -372,18 +446,35 @@ impl HexCase {
                 (Some(_), Some(want)) => {
                     // the mutation happened to stay well-formed: then it must decode
                     if !o.status.ok() || o.stdout != want {
-                        rep.violate("C19", "decode-roundtrip", "hex decode", "well-formed variant not decoded".to_string());
+                        rep.violate(
+                            "C19",
+                            "decode-roundtrip",
+                            "hex decode",
+                            "well-formed variant not decoded".to_string(),
+                        );
                     }
                 }
                 (None, None) => {
-                    return Err(HarnessError("layout produced text outside the specification".into()));
+                    return Err(HarnessError(
+                        "layout produced text outside the specification".into(),
+                    ));
                 }
             }
         }
         // a panic is never an "ordinary error"; that is C17's clause, recorded here too
-        if matches!(o.status, crate::exec::Status::Exit(101) | crate::exec::Status::Signal(_) | crate::exec::Status::Timeout) {
+        if matches!(
+            o.status,
+            crate::exec::Status::Exit(101)
+                | crate::exec::Status::Signal(_)
+                | crate::exec::Status::Timeout
+        ) {
             let (loc, msg) = o.panic_site().unwrap_or_default();
-            rep.violate("C17", "panic", crate::exec::panic_fingerprint(&loc, &msg), format!("hex decode: {:?} {msg} at {loc}", o.status));
+            rep.violate(
+                "C17",
+                "panic",
+                crate::exec::panic_fingerprint(&loc, &msg),
+                format!("hex decode: {:?} {msg} at {loc}", o.status),
+            );
         }
         rep.event_hash = eh.finish();
         rep.history = json!(hist);
@@ -601,6 +692,10 @@ impl crate::framework::Plan for HexPlan {
         })
     }
     fn required_probes(&self) -> Vec<String> {
-        vec!["eintr_on_last_read_before_eof".into(), "write_split_mid_output".into(), "hard_error_before_eof_fired".into()]
+        vec![
+            "eintr_on_last_read_before_eof".into(),
+            "write_split_mid_output".into(),
+            "hard_error_before_eof_fired".into(),
+        ]
     }
 }
